@@ -32,7 +32,7 @@ func (g *G) orDefault(e *Node) *Node {
 
 // extraInt returns an int-valued expression of one of the extra kinds, or nil.
 func (g *G) extraInt(d int) *Node {
-	switch g.intn(12, "extraIntKind") {
+	switch g.intn(14, "extraIntKind") {
 	case 0, 1:
 		// this.name: the current activation's own space only
 		vs := g.intVarsHere()
@@ -126,6 +126,24 @@ func (g *G) extraInt(d int) *Node {
 			args = append(args, g.smallArg(d-1))
 		}
 		return Call(callee, args...)
+	case 11, 12:
+		// an item / attribute assignment used as a value (it yields the assigned value)
+		if !g.O.SideFx {
+			return nil
+		}
+		if arrs := g.Env.OfType(TArrI); len(arrs) > 0 && g.intn(2, "asgArr") == 0 {
+			v := arrs[g.intn(len(arrs), "asgArrVar")]
+			return N("setidx", Var(v.Name), g.indexFor(v.Len), g.intExpr(d-1))
+		}
+		if ds := g.Env.OfType(TDict); len(ds) > 0 {
+			v := ds[g.intn(len(ds), "asgDictVar")]
+			k := []string{"x", "y", "z", "hp"}[g.intn(4, "asgKey")]
+			if g.intn(2, "asgAttr") == 0 {
+				return &Node{K: "setattr", S: v.Name, Names: []string{k}, Kids: []*Node{g.intExpr(d - 1)}}
+			}
+			return N("setidx", Var(v.Name), Str(k, g.intn(2, "q")), g.intExpr(d-1))
+		}
+		return nil
 	default:
 		// element of a nested array: m[i][j]
 		for _, v := range g.Env.OfType(TArr) {
@@ -289,7 +307,7 @@ func (g *G) extraStmt(d int) []*Node {
 		attr := compAttrs[g.intn(len(compAttrs), "cAttr")]
 		save := g.O.SideFx
 		g.O.SideFx = false
-		body := Bin([]string{"+", "*", "-"}[g.intn(3, "cOp")], g.orDefault(&Node{K: "this", S: attr}), g.intExpr(d-1))
+		body := g.compBody(Bin([]string{"+", "*", "-"}[g.intn(3, "cOp")], g.orDefault(&Node{K: "this", S: attr}), g.intExpr(d-1)))
 		g.O.SideFx = save
 		g.Env.Put(&VarInfo{Name: name, T: TComp, Ret: TInt, Len: -1})
 		out := []*Node{&Node{K: "setc", S: name, Kids: []*Node{body}}}
